@@ -281,7 +281,8 @@ func ruleSpawnReport(w *World, r *RuleResult) {
 									if b := stripConv(x.A[0]); b.Op == "sel" && b.S == "Code" {
 										li := linearOf(x.A[1])
 										li.Coef[j.off]++
-										if l.equal(li) {
+										li.Atom[j.off] = tparam(j.off, nil)
+										if l.equal(li) || lockstep(w, j.fn, p, l).equal(lockstep(w, j.fn, p, li)) {
 											loadOK = true
 										}
 									}
